@@ -46,11 +46,10 @@ fn main() {
     let (breaches, what) = vnet::take_wake_contract_breaches();
     rep.add("wake_contract_breaches", breaches);
     if breaches > 0 {
-        let prop = name.to_uppercase();
         rep.violation(
-            &format!("{prop}/future-returned-pending-without-arranging-a-wake-up"),
+            "C15/future-returned-pending-without-arranging-a-wake-up",
             format!("{breaches} poll(s) returned Pending although the task's waker neither fired during the poll nor was registered with any source of readiness: {}", what.join("; ")),
-            serde_json::json!({"monitor": name}),
+            serde_json::json!({"monitor": "c15"}),
         );
     }
     let js = serde_json::to_string(&rep.to_json()).unwrap();
